@@ -249,10 +249,10 @@ func verifC10(L int, replay bool) {
 }
 
 type verifOp struct {
-	kind      int
-	k, v      byte
-	lo, hi    byte
-	stop      int
+	kind   int
+	k, v   byte
+	lo, hi byte
+	stop   int
 }
 
 type verifObs struct {
@@ -262,3 +262,4 @@ type verifObs struct {
 
 func VerifC10Quick()    { verifC10(2, true) }
 func VerifC10Thorough() { verifC10(3, true) }
+func VerifC10Three()    { verifC10(3, false) } // three operations without the re-run leg
